@@ -17,7 +17,7 @@ rc_all=0
 for c in "$@"; do
   echo "--- $c ($tier) against $(basename $patch)"
   (cd $vc && VERIF_REPO=$wt timeout 3000 ./check $c --tier $tier 2>&1 | grep -E "VIOLATION|KNOWN-FINDING|MACHINERY|Error|error" | head -8; echo "rc=${PIPESTATUS[0]}")
-  if [ -d $vc/replays ]; then mkdir -p /tmp/seed_replays; cp -r $vc/replays/. /tmp/seed_replays/ 2>/dev/null; fi
+  if [ -d $vc/replays ]; then mkdir -p /tmp/seed_replays/$(basename $(dirname $patch)); cp -r $vc/replays/. /tmp/seed_replays/$(basename $(dirname $patch))/ 2>/dev/null; fi
 done
 git -C /repo worktree remove --force $wt
 rm -rf /tmp/seedrun_$tag
